@@ -4,6 +4,10 @@ set -eu
 cd "$(dirname "$0")"
 export CARGO_NET_OFFLINE=true
 export RUSTFLAGS="--cfg gm_rs_verif"
+mkdir -p sim/target/simstd
+export GMSIM_SIMSTD="$PWD/sim/target/simstd/libsimstd.rlib"
+export RUSTC_WRAPPER="$PWD/sim/rustc-wrapper.sh"
+rustc --edition 2021 -C opt-level=3 --crate-type rlib --crate-name simstd sim/simstd/lib.rs -o "$GMSIM_SIMSTD"
 ( cd sim && cargo build --release --offline 2>&1 | tail -3 )
 cc -O2 -shared -fPIC -o sim/target/simenv.so sim/shim/simenv.c
 sim/target/release/gmsim selftest
